@@ -140,18 +140,21 @@ def finishSignal (c : Codec) (s : SigEnc) : SigEnc × Option (List Nat) :=
     (s', some (lebWrite (metaEncode s.maxStates (some data.length)) ++ data))   -- compress = id
   else (s', some (lebWrite (metaEncode s.maxStates none) ++ data))
 
+/-- the per-signal loop of `finish_block`: new encoders, offsets, block data -/
+def finishSignals (c : Codec) (signals : Array SigEnc) : Array SigEnc × List (Option Nat) × List Nat :=
+  let step := fun (acc : Array SigEnc × List (Option Nat) × List (List Nat) × Nat) (s : SigEnc) =>
+    match finishSignal c s with
+    | (s', none) => (acc.1.push s', none :: acc.2.1, acc.2.2.1, acc.2.2.2)
+    | (s', some d) => (acc.1.push s', some acc.2.2.2 :: acc.2.1, d :: acc.2.2.1, acc.2.2.2 + d.length)
+  let r := signals.foldl step (#[], [], [], 0)
+  (r.1, r.2.1.reverse, r.2.2.1.reverse.flatten)
+
 def finishBlock (c : Codec) (e : Enc) : Enc :=
   if !e.hasNewData then e else
-  let step := fun (acc : Array SigEnc × List (Option Nat) × List (List Nat) × Nat) (s : SigEnc) =>
-    let (sigs, offs, datas, pos) := acc
-    match finishSignal c s with
-    | (s', none) => (sigs.push s', none :: offs, datas, pos)
-    | (s', some d) => (sigs.push s', some pos :: offs, d :: datas, pos + d.length)
-  let (sigs, offs, datas, _) := e.signals.foldl step (#[], [], [], 0)
-  let tt := e.timeRev.reverse
-  let blk : Block := { startTime := tt.headD 0, timeTable := tt, offsets := offs.reverse,
-                       data := datas.reverse.flatten }
-  { e with signals := sigs, timeRev := [e.timeRev.headD 0], timeLen := 1,
+  let r := finishSignals c e.signals
+  let blk : Block := { startTime := e.timeRev.reverse.headD 0, timeTable := e.timeRev.reverse,
+                       offsets := r.2.1, data := r.2.2 }
+  { e with signals := r.1, timeRev := [e.timeRev.headD 0], timeLen := 1,
            blocksRev := blk :: e.blocksRev, hasNewData := false }
 
 /-- `Encoder::time_change` (with the fixes for F1: no duplicate entry at roll-over, and
